@@ -427,4 +427,32 @@ theorem writeW_ready (s : FileSink) (h : Ready s) (mv r : Bool) (m : Str) (hm : 
     rw [e, h2.2, h1.2]
     exact ⟨h2.1, rfl⟩
 
+/-! ### exit with some worker threads already gone -/
+
+/-- an enqueued handler of this process whose worker thread has ended -/
+def DeadWorker (h : Handler) : Prop :=
+  h.enqueue = true ∧ h.owner = true ∧ h.workerDead = true ∧ h.stopped = false ∧ h.hung = false
+
+/-- what `stop()` leaves of it -/
+def Handler.finalDead (h : Handler) : Handler :=
+  { h with stopped := true, sentinel := true, joined := true, sink := h.sink.stop }
+
+/-- what `stop()` leaves of a handler that is live or has lost its worker -/
+def Handler.finalAny (h : Handler) : Handler :=
+  if h.workerDead then h.finalDead else h.final
+
+theorem removeOne_any (h : Handler) (hh : Live h ∨ DeadWorker h) : removeOne h = (h.finalAny, true) := by
+  rcases hh with hl | ⟨a, b, c, _, _⟩
+  · have : h.workerDead = false := hl.2.2.2.2.2.2
+    simp [removeOne_live h hl, Handler.finalAny, this]
+  · simp [removeOne, Gen.removeOps, runRemoveOp, stop_dead_worker h a b c, Handler.finalAny, c, Handler.finalDead]
+
+theorem exit_eq_any (lg : Logger) (hl : ∀ h ∈ lg.handlers, Live h ∨ DeadWorker h) :
+    interpreterExit lg = { handlers := [], removed := lg.removed ++ lg.handlers.map Handler.finalAny } := by
+  have hm : lg.handlers.map removeOne = lg.handlers.map (fun h => (h.finalAny, true)) :=
+    List.map_congr_left (fun h hh => removeOne_any h (hl h hh))
+  simp [interpreterExit, Gen.atexitHooks, runHook, Logger.removeAll, Gen.removeNoneTakesAll, hm,
+    List.filter_map, Function.comp_def]
+  rw [List.filter_eq_self.mpr (by simp)]
+
 end Buffer
